@@ -186,6 +186,22 @@ CHECKS["C19"] = dict(
          "simulator must execute the instruction that was written where pc is set, and -bin -address must place a raw file where it says.",
     note="Interactive 'asm' cannot be scripted (every source line is answered 'Unknown command'); in-process assembly histories are covered by C13.")
 
+CHECKS["C14"] = dict(
+    level="model_checking", design_ref="DESIGN.md 4/C14, Appendix A",
+    technique="exhaustive enumeration of first opcode words x extension words x register presets x flag inputs x memory fills through one real "
+              "simulator step (library seam) against a reference step function; exhaustive enumeration of short programs through "
+              "naken_util -run against the same reference",
+    text="(i) All 65 536 first words x all 16 combinations of C,Z,N,V x cells of (program counter, two extension words, memory fill, register "
+         "preset): quick 18 cells (18.9 M steps), thorough 1 974 cells (2.07 G steps: 6 x 4 extension word pairs x 10 memory fills x 8 "
+         "register presets at pc 0x1000, plus pc 0x0200 / 0xf000). Each step runs on the real SimulateMsp430 (a subclass logs memory "
+         "traffic) and on probe/msp430ref.h, written from the family user's guide; compared: return value, R0-R15 except R3, SR, the byte "
+         "write set and the cycle count. Steps the guides leave open (list in DESIGN.md Appendix A) are executed but not judged and "
+         "counted by reason. (ii) Every sequence of up to 3 (quick) / 4 (thorough) items from a 14-item alphabet (immediates, byte "
+         "ops, loop, call, push/pop, byte and word store to the -break_io port, rotate/sxt, dadd) between SP set-up and the final ret, "
+         "assembled by naken_asm and run by `naken_util -msp430 [-break_io a] -run`: final register dump, reported cycle count and exit "
+         "status against the reference run.",
+    note="Programs the reference does not finish within 400 instructions (a dec/jnz loop over r14 = 0) are not run.")
+
 CHECKS["C15"] = dict(
     level="model_checking", design_ref="DESIGN.md 4/C15",
     technique="exhaustive enumeration of 16-bit opcode cells x operand fills x register presets x program counters through one real step of "
